@@ -205,6 +205,20 @@ claim("C20", "proof", "Lean 4 refinement of MemoryStorage to the log of appended
       COMMON_NOTE + "float64 fields in the model; np.searchsorted on unsorted times mirrors numpy 2.5.3's loop (on sorted times "
       "every correct search agrees, which is a theorem).", "DESIGN.md section 6, C20; notes/C20.md")
 
+claim("C13", "proof", "Lean 4 theorems about the stochastic step formulas (incl. Mathlib Derivation for the Milstein term) + exact trajectory replay with a twin generator",
+      "One Euler-Maruyama, Milstein and semi-implicit step, the interpretation table, the variance layout per component / per "
+      "field and runs as folds that consume exactly one normal array per step are modelled in the code's operation order "
+      "(Model/Noise.lean, cell volumes from C12). 39 theorems: step formulas, Milstein = EM + correction, the semi-implicit "
+      "solver adds the same noise increment to the state it iterates from, zero variance gives the deterministic step/run, an "
+      "n-step run consumes exactly n arrays in order and depends only on that prefix, Stratonovich/anti-Ito drift factors, in a "
+      "commutative ring with a derivation b*b = v/V implies that the documented correction is the textbook Milstein term, "
+      "variance layouts. The harness seeds a twin numpy Generator, draws the arrays itself and replays the Float model: real "
+      "numpy-backend trajectories must agree to 1e-12 (about 98% bit-identical), the generator state must equal the twin's "
+      "after exactly n draws, two seeded runs must be byte-identical; numba source semantics and the compiled legacy stream "
+      "are replayed too.",
+      COMMON_NOTE + "Partial: reproducibility is a correspondence result (numpy's Generator and numba's RNG are external); "
+      "square roots are parameters with hypotheses in the theorems.", "DESIGN.md section 6, C13; notes/C13.md")
+
 # properties not (yet) decided by the machinery
 NOT_APPLICABLE = {}
 
